@@ -56,7 +56,7 @@ theorem Sel_add (a b : A) : Sel (a + b) = Sel a + Sel b := by
 theorem Sel_smul (q : ℚ) (a : A) : Sel (q • a) = q • Sel a := by
   unfold Sel; rw [map_smul, map_smul, smul_add]
 
-theorem Rem_comm (u : Unperturbed A) (a : A) : Rem (u.H0 * a - a * u.H0) = u.H0 * Rem a - Rem a * u.H0 := by
+theorem Rem_comm (u : UnperturbedNH A) (a : A) : Rem (u.H0 * a - a * u.H0) = u.H0 * Rem a - Rem a * u.H0 := by
   unfold Rem
   simp only [map_sub, u.H0_left, u.H0_right]
   noncomm_ring
@@ -73,7 +73,7 @@ theorem mul_mem_right' {n : ℕ} (c : A) {d : A} (hd : d ∈ I (A := A) n) : d *
 
 /-- one step of the contraction: if two least-action unitaries of the same `H` agree below order `n`,
     they agree below order `n + 1` -/
-theorem lsa_step (u : Unperturbed A) (hg : Gapped u.H0) {H U1 U2 Ht1 Ht2 : A} (hH : H - u.H0 ∈ I (A := A) 1)
+theorem lsa_step (u : UnperturbedNH A) (hg : Gapped u.H0) {H U1 U2 Ht1 Ht2 : A} (hH : H - u.H0 ∈ I (A := A) 1)
     (h1 : LeastAction H U1 Ht1) (h2 : LeastAction H U2 Ht2) (n : ℕ) (hn : U1 - U2 ∈ I (A := A) n) :
     U1 - U2 ∈ I (A := A) (n + 1) := by
   set δ := U1 - U2 with hδ
@@ -146,7 +146,7 @@ theorem lsa_step (u : Unperturbed A) (hg : Gapped u.H0) {H U1 U2 Ht1 Ht2 : A} (h
   exact Submodule.add_mem _ hsel hrem
 
 /-- T-uniq: the least-action block-diagonalising unitary of `H` is unique -/
-theorem lsa_unique (u : Unperturbed A) (hg : Gapped u.H0) {H U1 U2 Ht1 Ht2 : A} (hH : H - u.H0 ∈ I (A := A) 1)
+theorem lsa_unique (u : UnperturbedNH A) (hg : Gapped u.H0) {H U1 U2 Ht1 Ht2 : A} (hH : H - u.H0 ∈ I (A := A) 1)
     (h1 : LeastAction H U1 Ht1) (h2 : LeastAction H U2 Ht2) : U1 = U2 ∧ Ht1 = Ht2 := by
   have hU : U1 = U2 := by
     have : U1 - U2 = 0 := eq_zero_of_contraction _ (lsa_step u hg hH h1 h2)
@@ -180,7 +180,7 @@ theorem H_sub_H0_mem {u : Unperturbed A} (e : MainEqs A u) : e.H - u.H0 ∈ I (A
 /-- C03 (uniqueness clause): any least-action unitary of `H` is the one the code computes -/
 theorem C03_unique {u : Unperturbed A} (hg : Gapped u.H0) (e : MainEqs A u) {U Ht : A}
     (h : LeastAction e.H U Ht) : U = e.U ∧ Ht = e.H_tilde :=
-  lsa_unique u hg (H_sub_H0_mem e) h (code_least_action e)
+  lsa_unique u.toUnperturbedNH hg (H_sub_H0_mem e) h (code_least_action e)
 
 /-- shift covariance: adding a central self-adjoint kept element `z` (a multiple of the identity)
     to `H0` leaves `U` unchanged and shifts `H_tilde` by `z` -/
@@ -197,7 +197,7 @@ theorem shift_cov {u u' : Unperturbed A} (hg : Gapped u'.H0) (e : MainEqs A u) (
         have : Rem (e.H_tilde + z) = Rem e.H_tilde + Rem z := by unfold Rem; simp only [map_add]; abel
         rw [this, hl.elim, hzr, add_zero]
       gauge := hl.gauge }
-  have := lsa_unique u' hg (H_sub_H0_mem e') (code_least_action e') hl'
+  have := lsa_unique u'.toUnperturbedNH hg (H_sub_H0_mem e') (code_least_action e') hl'
   exact this
 
 /-- scale covariance: multiplying the whole Hamiltonian by a non-zero rational `s` leaves `U`
@@ -213,7 +213,7 @@ theorem scale_cov {u u' : Unperturbed A} (hg : Gapped u'.H0) (e : MainEqs A u) (
         have : Rem (s • e.H_tilde) = s • Rem e.H_tilde := by unfold Rem; simp only [map_smul, smul_add]
         rw [this, hl.elim, smul_zero]
       gauge := hl.gauge }
-  exact lsa_unique u' hg (H_sub_H0_mem e') (code_least_action e') hl'
+  exact lsa_unique u'.toUnperturbedNH hg (H_sub_H0_mem e') (code_least_action e') hl'
 
 end Char
 
@@ -239,7 +239,7 @@ theorem natural {u : Unperturbed A} {u' : Unperturbed A'} (φ : A →+* A')
       sim := by rw [hH, ← hstar, ← map_mul, ← map_mul, hl.sim]
       elim := by rw [← hRem, hl.elim, map_zero]
       gauge := by rw [← hstar, ← map_sub, ← hSel, hl.gauge, map_zero] }
-  have h := lsa_unique u' hg (H_sub_H0_mem e') (code_least_action e') hl'
+  have h := lsa_unique u'.toUnperturbedNH hg (H_sub_H0_mem e') (code_least_action e') hl'
   refine ⟨h.1, h.2, ?_⟩
   rw [C02_adjoint e', C02_adjoint e, h.1, hstar]
 
